@@ -280,7 +280,10 @@ def generate_integration(seed, prop, tier, index=0):
 
     comps = [plain_comp(i) for i in range(rng.choice([0, 1, 2]))]
     modes = []
-    if prop in ("C01", "C02", "C03", "C04"):
+    # C02 / C03 speak about every StateMachine: in part of the runs the machine is the selected autonomous mode
+    # (an AutonomousStateMachine driven by the selector) instead of a component
+    as_mode = prop == "C13" or (prop in ("C02", "C03") and rng.random() < 0.4)
+    if prop in ("C01", "C02", "C03", "C04") and not as_mode:
         c = plain_comp(len(comps))
         c["hooks"] = sorted(set(c["hooks"]) | {"on_disable"})
         c["machine"] = machine_cfg(prop)
@@ -289,7 +292,7 @@ def generate_integration(seed, prop, tier, index=0):
             x["name"] = f"c{i}"
         if rng.random() < 0.5:
             modes.append({"module": "m0", "cls": "Mode0", "name": "Plain0", "default": True, "kind": "plain"})
-    elif prop == "C13":
+    elif as_mode:
         modes.append({"module": "m0", "cls": "Mode0", "name": rng.choice(["Auto A", "two_ball"]), "default": True, "kind": "asm", "machine": machine_cfg("C13")})
     else:
         for _ in range(50):
@@ -311,7 +314,7 @@ def generate_integration(seed, prop, tier, index=0):
         ops.append({"site": site, "visit": visit, "acts": [list(a) for a in acts]})
 
     # mode sessions: mostly the mode the machine lives in, interrupted by disables / other modes
-    home = "teleop" if prop in ("C01", "C02", "C03", "C04") else "auto"
+    home = "teleop" if (prop in ("C01", "C02", "C03", "C04") and not as_mode) else "auto"
     k = 0
     add("wait", 1, ["ds", 1, home, None])
     while k < cap:
@@ -333,7 +336,7 @@ def generate_integration(seed, prop, tier, index=0):
     if rng.random() < 0.3:
         add(rng.choice(anysites + ["wait"]), rng.randint(2, cap), ["end"])
     # in-state actions of the embedded machine
-    if prop in ("C01", "C02", "C03", "C04"):
+    if prop in ("C01", "C02", "C03", "C04") and not as_mode:
         owner, mach = [(c["name"], c["machine"]) for c in comps if c.get("machine")][0]
     else:
         owner, mach = f"mode.{modes[0]['name']}", modes[0]["machine"]
@@ -356,7 +359,7 @@ def generate_integration(seed, prop, tier, index=0):
             v = int(v) if isinstance(st["duration"], int) else float(round(v, 3) if not dyadic else v)
             add(rng.choice(["wait", "wait", "robot.disabledPeriodic", "robot.robotPeriodic"]), rng.randint(1, cap), ["ntdur", owner, st["name"], v])
     # who calls engage()
-    if prop in ("C01", "C02", "C03", "C04"):
+    if prop in ("C01", "C02", "C03", "C04") and not as_mode:
         srcs = ["robot.teleopPeriodic"] + ([f"mode.{modes[0]['name']}.on_iteration"] if modes else [])
         style = rng.choice(["always", "always", "bursts", "sparse"])
         for src in srcs:
